@@ -230,6 +230,13 @@ PORTY = st.sampled_from([6, 6, 6, 17, 17, 0, 1])
 def case_st(draw, tier):
     acl = draw(G.acl_st(platform="ios", min_items=1, max_items=8, kmax=2, groups=True, members=True, seqs=True,
                         multi=True, neq_multi=True, protos=PORTY))
+    # bound the size of a split (10 x 10 operands with a 65 k-element neq list each cost ~10 s in the library)
+    for it in acl["items"]:
+        if it["t"] == "ace":
+            rec = it["rec"]
+            if _count(rec.get("sp")) * _count(rec.get("dp")) > 20 and rec.get("dp"):
+                keep = max(1, 20 // _count(rec.get("sp")))
+                rec["dp"] = dict(rec["dp"], v=rec["dp"]["v"][:keep], nm=rec["dp"]["nm"][:keep])
     # duplicates of a split result elsewhere in the ACL (above or below the entry that gets split)
     multi = [it for it in acl["items"] if it["t"] == "ace" and len(expected_run(it["rec"])) > 1]
     if multi and draw(st.sampled_from([True, False, False])):
